@@ -27,7 +27,7 @@ def apply_inst(prefix, n, shapes, lines, fuzz, d, flags, sub, cap=None, unwind=N
     if unwind is None:
         unwind = max(n + 4, cap + 2)
     return Instance(name, "patch", call, unwind=unwind, unwindset={"memcmp.0": 3}, features=True, cap=cap,
-                    mem_gb=mem_gb, timeout_s=timeout, sub=sub, must_cover=must_cover,
+                    mem_gb=mem_gb, timeout_s=timeout, sub=sub, must_cover=must_cover, sweep=("patch", "replay_sweep_multi_hunk"),
                     params=dict(file_lines=n, hunks=[dict(prefix_ctx=s[0], removed=s[1], added=s[2], suffix_ctx=s[3]) for s in shapes],
                                 stated_lines=["symbolic 0..N+1" if l is None else l for l in lines], fuzz_limit=fuzz, direction=d,
                                 checks=list(flags)))
